@@ -315,6 +315,10 @@ func QualifierParser(prefix string) pars.Parser {
 		}
 
 		value := string(result.Token)
+		if GetQualifierType(name) == ToggleQualifier {
+			// The toggle branch matched the end of the line, not a value.
+			value = ""
+		}
 		result.SetValue(QualifierIO{name, value})
 		return nil
 	}
